@@ -6,7 +6,8 @@
 // Functional actions (one-step histories):
 //   SplitChar{s,d} SplitSet{s,d} Tokenize{s,d} Lcp{x,y} BeginsWith{x,y}
 //   UrlParse{u,q}  FnSplit{s} FnNameExt{s} FnDropExt{s} FnSetExt{s,x} FnAddExt{s,x} FnPlus{s,o[,dflt]} FnRecompose{s}
-//   PrettyDouble{m,e} PrettyNumber{m,e}          (the input is m * 10^e)
+//   PrettyDouble{neg,m,e}   the double nearest to (-1)^neg * m * 10^e
+//   PrettyNumber{limbs}     the count limbs[0] * 10^18 + limbs[1] * 10^9 + limbs[2]
 // ADT actions (ArgumentList, variant "list"; raw argc/argv + removeArgs, variant "acav"):
 //   Construct{v} Get{i} Remove{w,h} ParseAndRemove{cnt}; record mode: RemoveMod{w,h} GetMod{i}
 //
@@ -293,20 +294,20 @@ struct World
         o.set("ret", "unknown action " + a);
       }
     } else if (a == "PrettyDouble") {
+      // the correctly rounded double of (-1)^neg * m * 10^e (neg with m = 0: negative zero)
       char buf[64];
-      snprintf(buf, sizeof buf, "%llde%lld", (long long)arg["m"].num(), (long long)arg["e"].num());
-      double v = strtod(buf, nullptr);  // the correctly rounded double of m * 10^e
+      bool neg = arg.has("neg") && arg["neg"].boolean();
+      snprintf(buf, sizeof buf, "%s%llde%lld", neg ? "-" : "", (long long)arg["m"].num(), (long long)arg["e"].num());
+      double v = strtod(buf, nullptr);
       printedObs(rkcommon::prettyDouble(v), o);
     } else if (a == "PrettyNumber") {
-      unsigned long long v = (unsigned long long)arg["m"].num();
-      long long e = arg["e"].num();
-      bool ovf = e < 0;
-      for (long long k = 0; k < e && !ovf; ++k) {
-        if (v > 18446744073709551615ULL / 10ULL) ovf = true;
-        else v *= 10ULL;
-      }
-      if (ovf) o.set("raw", "input is not a 64-bit count");
-      else printedObs(rkcommon::prettyNumber((size_t)v), o);
+      // the count a * 10^18 + b * 10^9 + c given as limbs [a, b, c] (exact in 64 bits)
+      const Json &L = arg["limbs"];
+      unsigned long long v = (unsigned long long)L[0].num();
+      v = v * 1000000000ULL + (unsigned long long)L[1].num();
+      v = v * 1000000000ULL + (unsigned long long)L[2].num();
+      o.set("value", std::to_string(v));
+      printedObs(rkcommon::prettyNumber((size_t)v), o);
     } else {
       o.set("ret", "unknown action " + a);
     }
